@@ -1,8 +1,10 @@
 import BppModel.Proto
+import BppModel.Drive.C05
 import BppModel.Drive.C20
 open Bpp
 
 def main (args : List String) : IO UInt32 := do
   match args with
+  | ["C05"] => Proto.run Drive.C05.machine; return 0
   | ["C20"] => Proto.run Drive.C20.machine; return 0
   | _ => IO.eprintln "usage: driver <property-id> < script"; return 2
